@@ -878,11 +878,29 @@ func ruleJsonEscape(p *Prog, r *Report) {
 	}
 	n := p.Name(fn)
 	sites := p.readSites([]*ssa.Function{fn})
-	if len(sites) != 1 {
-		r.Unknown(rule, n, "scanner loop", p.Pos(fn.Pos()), "expected one Read call")
+	var anchor ssa.Instruction
+	switch len(sites) {
+	case 1:
+		anchor = sites[0].call.(ssa.Instruction)
+	case 0:
+		// the Read may live in an unexported helper ("read the next byte"): the call of that helper marks the scanner loop
+		var cands []ssa.Instruction
+		eachInstr(fn, func(b *ssa.BasicBlock, in ssa.Instruction) {
+			if c, ok := in.(*ssa.Call); ok {
+				if h := staticCallee(&c.Call); h != nil && p.InModule(h) && !p.Exported(h) && len(h.Blocks) > 0 && len(p.readSites([]*ssa.Function{h})) == 1 {
+					cands = append(cands, c)
+				}
+			}
+		})
+		if len(cands) == 1 {
+			anchor = cands[0]
+		}
+	}
+	if anchor == nil {
+		r.Unknown(rule, n, "scanner loop", p.Pos(fn.Pos()), "expected one Read call (in the function or in one helper it calls)")
 		return
 	}
-	hdr := innermostLoopHeader(sites[0].call.(ssa.Instruction).Block())
+	hdr := innermostLoopHeader(anchor.Block())
 	if hdr == nil {
 		r.Unknown(rule, n, "scanner loop", p.Pos(fn.Pos()), "the Read call is not in a loop")
 		return
